@@ -384,7 +384,14 @@ RESERVED = [":", ";", "recurse", "variable", "input", "output", "halt", "pause",
             "0bit->", "!?->"]
 
 
+# words that are neither in the vocabulary nor numbers nor names a generated program defines: a text that ends with
+# one of them (top-level code context) is not a program and must be refused at compile time
+NOT_WORDS = ["nosuchword", "12abc", "0x", "0x1G", "1e5", "3.14", "--1", "7bitt->", "#", "!i->>", "loops"]
+
+
 def gen_source_mutation(r, text):
+    if r.random() < 0.15:
+        return [["append_not_a_word", 0, r.choice(NOT_WORDS)]]
     toks = text.split(" ")
     ops = []
     for _ in range(r.choice([1, 1, 2, 3])):
@@ -395,6 +402,8 @@ def gen_source_mutation(r, text):
 
 
 def apply_source_mutation(text, ops):
+    if ops and ops[0][0] == "append_not_a_word":
+        return text.rstrip("\n") + "\n" + ops[0][2] + "\n"
     toks = text.split(" ")
     for kind, pos, word in ops:
         if not toks:
@@ -846,9 +855,15 @@ def execute_illformed(node, case, rec, src):
     except NodeError as e:
         rec.ev("compile_error", e.cls)
         rec.probe("compile_error_reported")
+        if (case.get("mutate_source") or [[None]])[0][0] == "append_not_a_word":
+            rec.probe("not_a_word_refused")
         if e.cls == "nonstd":
             raise Violation("robustness", "nonstd_exception", {"source": src})
         return
+    ms = case.get("mutate_source") or []
+    if ms and ms[0][0] == "append_not_a_word":
+        raise Violation("compile", "text_that_is_not_a_program_accepted",
+                        {"source": src, "appended": ms[0][2], "decompiled": node.fm_decompiled(h).decode("latin-1")})
     rec.probe("mutated_source_compiled")
     dec = node.fm_decompiled(h)
     try:
